@@ -177,7 +177,7 @@ func describeRev(sc *RevScenario) any {
 			}
 			for _, s := range cp.CRL {
 				m := map[string]any{"url": s.URL, "base": crlPlanDesc(&s.Base), "base_number": s.BaseNum, "base_fault": s.BaseFault.String(), "base_latency_ms": s.BaseLat.Milliseconds(),
-					"freshest_shape": s.FrShape, "cache_seed": s.CacheSeed, "cache_get_err": s.CacheGetEr, "cache_set_err": s.CacheSetEr, "stub_err": s.StubErr}
+					"freshest_shape": s.FrShape, "cache_seed": s.CacheSeed, "cache_get_err": s.CacheGetEr, "cache_set_err": s.CacheSetEr, "stub_err": s.StubErr, "answer_to_a_second_request": []string{"not_planned", "authentic_without_the_certificate", "authentic_revoking_it"}[s.Second]}
 				if s.HasDelta {
 					m["delta"] = crlPlanDesc(&s.Delta) + fmt.Sprintf("/num_off=%d/ind_kind=%d/ind_off=%d", s.Delta.NumOff, s.Delta.IndKind, s.Delta.IndOff)
 					var fs []string
@@ -218,6 +218,17 @@ func countRevStats(sc *RevScenario, obs *RevObs, st *Stats) (fired int) {
 			}
 			if differ {
 				st.Probes["overlapping_callers_differ_in_signing_time"]++
+			}
+		}
+	}
+	for _, w := range sc.Worlds {
+		for _, cp := range w.Certs {
+			for _, s := range cp.CRL {
+				for _, x2 := range s.XBase2 {
+					if x2 != nil && x2.Rec.Begun {
+						st.Probes["crl_point_asked_a_second_time"]++
+					}
+				}
 			}
 		}
 	}
